@@ -19,6 +19,8 @@ inductive FOp
   | removeMsg (i j : Nat)                     -- del mid.tracks[i][j]
   | setTime (i j : Nat) (t : Nat)             -- mid.tracks[i][j].time = t
   | setType (n : Int)                         -- mid.type = n
+  | swapMsgs (i j : Nat)                      -- t = mid.tracks[i]; t[j], t[j+1] = t[j+1], t[j]
+  | shiftTime (i j k : Nat)                   -- a, b = t[j], t[j+1]; if b.time >= k: a.time += k; b.time -= k
   | obsMerged                                 -- mid.merged_track
   deriving Repr
 
@@ -54,6 +56,23 @@ def fstep (m : MF) : FOp → MF × FOut
         else (m, .raised .IndexError)
     | none => (m, .raised .IndexError)
   | .setType n => ({ m with type := n }, .done)
+  | .swapMsgs i j =>
+    match m.tracks[i]? with
+    | some tr =>
+      match tr[j]?, tr[j + 1]? with
+      | some a, some b => ({ m with tracks := m.tracks.set i ((tr.set j b).set (j + 1) a) }, .done)
+      | _, _ => (m, .raised .IndexError)
+    | none => (m, .raised .IndexError)
+  | .shiftTime i j k =>
+    match m.tracks[i]? with
+    | some tr =>
+      match tr[j]?, tr[j + 1]? with
+      | some a, some b =>
+        if b.time ≥ k then
+          ({ m with tracks := m.tracks.set i ((tr.set j { a with time := a.time + k }).set (j + 1) { b with time := b.time - k }) }, .done)
+        else (m, .done)
+      | _, _ => (m, .raised .IndexError)
+    | none => (m, .raised .IndexError)
   | .obsMerged => (m, observeMerged m.type m.tracks)
 
 def frun (m : MF) : List FOp → MF
